@@ -11,10 +11,13 @@
      - if the last element is text, its last byte is none of space, CR, LF (the value is trimmed),
      - the expression of a placeable is not a term attribute ("-t.a"),
    and every select expression has exactly one default variant and a selector that is a string / number literal, a
-   variable reference, a function reference or a term attribute.
+   variable reference, a function reference or a term attribute; the value of every NAMED ARGUMENT is a string
+   literal or a number literal (shape_named; what the grammar asks, and what get_inline_expression with
+   only_literal = true returns since the repair of finding D32), and the NAMES of the named arguments of a call are
+   pairwise distinct (Render.no_dup_names).
    (Not covered here: lexical validity of identifiers / numbers / string literals, the position-dependent facts
    about leading '.', '[', '*' and indentation, comments, Junk — for Junk see ParserAccounting.v.)          *)
-From FluentV Require Import Base.Bytes Base.Outcome Base.Utf8 Syntax.Ast Syntax.ParserModel Syntax.ParserAccounting.
+From FluentV Require Import Base.Bytes Base.BytesFacts Base.Outcome Base.Utf8 Syntax.Ast Syntax.ParserModel Syntax.ParserAccounting.
 From FluentV Require Import Syntax.Render.
 From Coq Require Import Lia ZifyBool ZifyNat ZifyN List.
 Import ListNotations.
@@ -75,10 +78,11 @@ with shape_args (a : call_args) : Prop :=
   match a with
   | CallArguments pos named =>
       (fix go (l : list inline) : Prop := match l with [] => True | x :: r => shape_inline x /\ go r end) pos /\
-      (fix go (l : list named_arg) : Prop := match l with [] => True | x :: r => shape_named x /\ go r end) named
+      (fix go (l : list named_arg) : Prop := match l with [] => True | x :: r => shape_named x /\ go r end) named /\
+      no_dup_names named [] = true
   end
 with shape_named (n : named_arg) : Prop :=
-  match n with NamedArgument _ v => shape_inline v end.
+  match n with NamedArgument _ v => shape_inline v /\ is_literal v = true end.
 
 Lemma shape_variants_forall vs :
   (fix go (l : list variant) : Prop := match l with [] => True | v :: r => shape_variant v /\ go r end) vs <-> Forall shape_variant vs.
@@ -97,8 +101,28 @@ Lemma shape_select s vs : shape_expr (Select s vs) <-> shape_inline s /\ sel_kin
 Proof. cbn [shape_expr]. rewrite shape_variants_forall. reflexivity. Qed.
 Lemma shape_pattern_els els : shape_pattern (Pattern els) <-> els <> [] /\ last_trimmed els /\ Forall shape_element els.
 Proof. cbn [shape_pattern]. rewrite shape_elements_forall. reflexivity. Qed.
-Lemma shape_args_eq pos named : shape_args (CallArguments pos named) <-> Forall shape_inline pos /\ Forall shape_named named.
+Lemma shape_args_eq pos named : shape_args (CallArguments pos named) <->
+  Forall shape_inline pos /\ Forall shape_named named /\ no_dup_names named [] = true.
 Proof. cbn [shape_args]. rewrite shape_pos_forall, shape_named_forall. reflexivity. Qed.
+
+(* the names of the named arguments are pairwise distinct *)
+Definition arg_name (n : named_arg) : bytes := match n with NamedArgument name _ => name end.
+
+Lemma no_dup_of_NoDup l : forall seen, NoDup (map arg_name l) -> (forall n, In n (map arg_name l) -> ~ In n seen) ->
+  no_dup_names l seen = true.
+Proof.
+  induction l as [|[n v] r IH]; intros seen Hnd Hseen; [reflexivity|]. cbn [map arg_name] in *. inversion Hnd as [|? ? Hn Hr]; subst.
+  cbn [no_dup_names]. apply andb_true_intro. split.
+  - apply negb_true_iff. destruct (existsb (bytes_eqb n) seen) eqn:E; [|reflexivity]. exfalso.
+    apply existsb_exists in E as (x & Hx & Ex). apply bytes_eqb_eq in Ex. subst x. apply (Hseen n (or_introl eq_refl) Hx).
+  - apply IH; [exact Hr|]. intros m Hm [<- | Hin]; [exact (Hn Hm) | exact (Hseen m (or_intror Hm) Hin)].
+Qed.
+
+Lemma has_name_false names id : has_name names id = false -> ~ In id names.
+Proof.
+  unfold has_name. intros H Hin. assert (existsb (bytes_eqb id) names = true); [|congruence].
+  apply existsb_exists. exists id. split; [exact Hin | apply bytes_eqb_eq; reflexivity].
+Qed.
 
 Definition shape_opt_pattern (o : option pattern) : Prop := match o with Some p => shape_pattern p | None => True end.
 Definition shape_attribute (a : attribute) : Prop := shape_pattern (attr_value a).
@@ -468,9 +492,10 @@ Definition knot_shape (n : nat) : Prop :=
   (forall p, spec (get_variants bs n) p OV ET) /\
   (forall acc (hd : bool) p, Forall shape_variant acc -> count_defaults acc = (if hd then 1 else 0) ->
                     spec (variants_loop bs n acc hd) p OV ET) /\
-  (forall ol p, spec (get_inline_expression bs n ol) p (fun i _ => shape_inline i) ET) /\
+  (forall ol p, spec (get_inline_expression bs n ol) p (fun i _ => shape_inline i /\ (ol = true -> is_literal i = true)) ET) /\
   (forall p, spec (get_call_arguments bs n) p OA ET) /\
   (forall pos named names p, Forall shape_inline pos -> Forall shape_named named ->
+                             names = map arg_name named -> NoDup names ->
                              spec (args_loop bs n pos named names) p (fun ca _ => shape_args ca) ET).
 
 Ltac skipb := eapply spec_bind; [apply spec_any | intros; exact Logic.I | let sa := fresh "sa" in let sq := fresh "sq" in intros sa sq _].
@@ -517,7 +542,7 @@ Proof.
       destruct i as [? | ? | ? ? | ? ? | ? [?|] ? | ? | ?]; try (apply spec_ret; split; [exact He | exact Logic.I]). exact Logic.I.
     + (* get_expression *)
       intros p. cbn [get_expression]. fold_knot bs.
-      useb (IH7 false p). intros i q Hi. skipn u1 q1.
+      useb (IH7 false p). intros i q [Hi _]. skipn u1 q1.
       eapply spec_bind; [apply sp_get_ptr | intros ? ? []|]. intros p0 q2 [-> ->].
       destruct (negb (is_byte_at bs 45 q1) || negb (is_byte_at bs 62 (S q1))).
       * destruct i as [? | ? | ? ? | ? ? | ? [?|] ? | ? | ?]; try (apply spec_ret; exact Hi). exact Logic.I.
@@ -538,43 +563,56 @@ Proof.
         cbn [count_defaults]. rewrite Hcnt. destruct dflt, hd; try discriminate Eah; reflexivity.
     + (* get_inline_expression *)
       intros ol p. cbn [get_inline_expression]. fold_knot bs.
+      assert (Hnl : forall i : inline, shape_inline i -> ol = false -> shape_inline i /\ (ol = true -> is_literal i = true)).
+      { intros i Hi ->. split; [exact Hi | discriminate]. }
       skipn cb q0. destruct cb as [b|]; [|destruct ol; exact Logic.I].
       destruct (N.eqb b 34).
-      { skipb. skipb. skipb. skipb. skipb. skipb. skipb. apply spec_ret. exact Logic.I. }
-      destruct (is_ascii_digit b); [skipb; apply spec_ret; exact Logic.I|].
-      destruct (N.eqb b 45 && negb ol).
-      { skipb. skipn st1 q2. destruct st1.
-        - skipb. skipb. skipn att q5. useb (IH8 q5). intros args q6 Hargs. apply spec_ret. destruct args; [exact Hargs | exact Logic.I].
-        - skipb. skipb. apply spec_ret. exact Logic.I. }
-      destruct (N.eqb b 45); [skipb; apply spec_ret; exact Logic.I|].
-      destruct (N.eqb b 36 && negb ol); [skipb; skipb; apply spec_ret; exact Logic.I|].
-      destruct (is_ascii_alphabetic b).
-      { skipb. skipn id q2. useb (IH8 q2). intros args q3 Hargs. destruct args as [args|].
-        - destruct (negb (is_callee id)); [exact Logic.I | apply spec_ret; exact Hargs].
-        - skipb. apply spec_ret. exact Logic.I. }
-      destruct (N.eqb b 123 && negb ol).
-      { skipn u1 q1. useb (IH3 q1). intros e q2 [He _]. apply spec_ret. exact He. }
+      { skipb. skipb. skipb. skipb. skipb. skipb. skipb. apply spec_ret. split; [exact Logic.I | reflexivity]. }
+      destruct (is_ascii_digit b); [skipb; apply spec_ret; split; [exact Logic.I | reflexivity]|].
+      destruct (N.eqb b 45 && negb ol) eqn:E45.
+      { assert (Eol : ol = false) by (destruct ol; [rewrite andb_false_r in E45; discriminate E45 | reflexivity]).
+        skipb. skipn st1 q2. destruct st1.
+        - skipb. skipb. skipn att q5. useb (IH8 q5). intros args q6 Hargs. apply spec_ret. apply Hnl; [|exact Eol].
+          destruct args; [exact Hargs | exact Logic.I].
+        - skipb. skipb. apply spec_ret. split; [exact Logic.I | reflexivity]. }
+      destruct (N.eqb b 45); [skipb; apply spec_ret; split; [exact Logic.I | reflexivity]|].
+      destruct (N.eqb b 36 && negb ol) eqn:E36.
+      { assert (Eol : ol = false) by (destruct ol; [rewrite andb_false_r in E36; discriminate E36 | reflexivity]).
+        skipb; skipb; apply spec_ret. apply Hnl; [exact Logic.I | exact Eol]. }
+      destruct (is_ascii_alphabetic b && negb ol) eqn:Eal.
+      { assert (Eol : ol = false) by (destruct ol; [rewrite andb_false_r in Eal; discriminate Eal | reflexivity]).
+        skipb. skipn id q2. useb (IH8 q2). intros args q3 Hargs. destruct args as [args|].
+        - destruct (negb (is_callee id)); [exact Logic.I | apply spec_ret; apply Hnl; [exact Hargs | exact Eol]].
+        - skipb. apply spec_ret. apply Hnl; [exact Logic.I | exact Eol]. }
+      destruct (N.eqb b 123 && negb ol) eqn:Ebr.
+      { assert (Eol : ol = false) by (destruct ol; [rewrite andb_false_r in Ebr; discriminate Ebr | reflexivity]).
+        skipn u1 q1. useb (IH3 q1). intros e q2 [He _]. apply spec_ret. apply Hnl; [exact He | exact Eol]. }
       destruct ol; exact Logic.I.
     + (* get_call_arguments *)
       intros p. cbn [get_call_arguments]. fold_knot bs.
       skipb. skipn op q2. destruct (negb op); [apply spec_ret; exact Logic.I|].
-      skipn u3 q3. useb (IH9 [] [] [] q3 ltac:(constructor) ltac:(constructor)). intros ca q4 Hca. skipb. apply spec_ret. exact Hca.
+      skipn u3 q3. useb (IH9 [] [] [] q3 ltac:(constructor) ltac:(constructor) eq_refl ltac:(constructor)). intros ca q4 Hca. skipb. apply spec_ret. exact Hca.
     + (* args_loop *)
-      intros pos named names p Hpos Hnamed. cbn [args_loop]. fold_knot bs.
+      intros pos named names p Hpos Hnamed Enames Hnd. cbn [args_loop]. fold_knot bs.
       eapply spec_bind; [apply sp_get_ptr | intros ? ? []|]. intros p0 q [-> ->].
-      assert (Hret : shape_args (CallArguments (rev pos) (rev named))) by (apply shape_args_eq; split; apply Forall_rev; assumption).
+      assert (Hret : shape_args (CallArguments (rev pos) (rev named))).
+      { apply shape_args_eq. split; [apply Forall_rev, Hpos|]. split; [apply Forall_rev, Hnamed|].
+        apply no_dup_of_NoDup; [rewrite map_rev, <- Enames; apply NoDup_rev, Hnd | intros ? _ []]. }
       destruct (negb (Nat.ltb p (length_ bs))); [apply spec_ret; exact Hret|].
       destruct (is_byte_at bs 41 p); [apply spec_ret; exact Hret|].
-      useb (IH7 false p). intros e q He.
-      eapply spec_bind with (Q1 := fun st _ => let '(a, b, c) := st in Forall shape_inline a /\ Forall shape_named b); [|intros; exact Logic.I|].
+      useb (IH7 false p). intros e q [He _].
+      eapply spec_bind with (Q1 := fun st _ => let '(a, b, c) := st in
+                                   Forall shape_inline a /\ Forall shape_named b /\ c = map arg_name b /\ NoDup c); [|intros; exact Logic.I|].
       * assert (Hpos' : forall q', spec (match names with [] => ret (e :: pos, named, names) | _ :: _ => error_here PositionalArgumentFollowsNamed end) q'
-                             (fun st _ => let '(a, b, c) := st in Forall shape_inline a /\ Forall shape_named b) ET).
-        { intros q'. destruct names; [apply spec_ret; split; [constructor; assumption | assumption] | exact Logic.I]. }
+                             (fun st _ => let '(a, b, c) := st in
+                                Forall shape_inline a /\ Forall shape_named b /\ c = map arg_name b /\ NoDup c) ET).
+        { intros q'. destruct names; [apply spec_ret; split; [constructor; assumption | split; [assumption | split; assumption]] | exact Logic.I]. }
         destruct e as [? | ? | ? ? | id [a|] | ? ? ? | ? | ?]; try apply Hpos'.
         skipn u1 q1. skipn colon q2. destruct colon; [|apply Hpos'].
-        destruct (has_name names id); [exact Logic.I|]. skipn u3 q3. skipn u4 q4. useb (IH7 true q4). intros v q5 Hv.
-        apply spec_ret. split; [exact Hpos | constructor; [exact Hv | exact Hnamed]].
-      * intros [[a b] c] q2 [Ha Hb]. skipb. skipb. skipb. apply IH9; assumption.
+        destruct (has_name names id) eqn:Ehn; [exact Logic.I|]. skipn u3 q3. skipn u4 q4. useb (IH7 true q4). intros v q5 [Hv Hlit].
+        apply spec_ret. split; [exact Hpos|]. split; [constructor; [split; [exact Hv | apply Hlit; reflexivity] | exact Hnamed]|].
+        split; [cbn [map arg_name]; rewrite Enames; reflexivity | constructor; [apply has_name_false, Ehn | exact Hnd]].
+      * intros [[a b] c] q2 (Ha & Hb & Ec & Hc). skipb. skipb. skipb. apply IH9; assumption.
 Qed.
 
 (* ---- entries ---- *)
